@@ -106,10 +106,7 @@ Proof.
   destruct (py_index gen_KR (Z.shiftr j 4)) as [kr| |]; cbn [bind]; try discriminate.
   destruct (py_index gen_RR j) as [rr| |]; cbn [bind]; try discriminate.
   intros [= <-]. cbn [p_fl p_ml p_kl p_rl p_fr p_mr p_kr p_rr].
-  destruct (fi bl cl dl (Z.shiftr j 4)) as [fl| |]; cbn [bind]; try reflexivity.
-  destruct (py_index x ml) as [xl| |]; cbn [bind]; try reflexivity.
-  destruct (fi br cr dr (4 - Z.shiftr j 4)) as [fr| |]; cbn [bind]; try reflexivity.
-  destruct (py_index x mr) as [xr| |]; cbn [bind]; reflexivity.
+  reflexivity.
 Qed.
 
 Lemma rounds_resolved x : forall js ps s,
@@ -170,8 +167,8 @@ Qed.
 
 Lemma wadd_chain a f x k : (a + f + x + k) mod W = wadd (wadd (wadd (a mod W) (f mod W)) x) k.
 Proof.
-  unfold wadd. rewrite !Zplus_mod_idemp_l. rewrite (Z.add_comm (a mod W)), Zplus_mod_idemp_l.
-  rewrite (Z.add_comm f). reflexivity.
+  unfold wadd. rewrite <- (Z.add_mod a f W) by discriminate.
+  rewrite (Zplus_mod_idemp_l (a + f) x W), (Zplus_mod_idemp_l (a + f + x) k W). reflexivity.
 Qed.
 
 (* spec line step with the boolean function given by index *)
